@@ -3,6 +3,7 @@ package main
 import (
 	"fmt"
 	"go/ast"
+	"go/token"
 	"go/types"
 	"sort"
 	"strings"
@@ -133,7 +134,11 @@ func (fr *Frame) callStatic(callee *ssa.Function, bindings []Val, args []Val, st
 	if fr.fc != nil {
 		for _, ca := range fr.fc.CallAssert {
 			if ca.Callee == short && ca.K == k {
-				env := fr.specEnv(st, fmt.Sprintf("assert@call %s#%d", short, k))
+				pos := token.NoPos
+				if fr.curInstr != nil {
+					pos = fr.curInstr.Pos()
+				}
+				env := fr.specEnvAt(st, fmt.Sprintf("assert@call %s#%d", short, k), pos)
 				for i, p := range callee.Params {
 					if i < len(args) {
 						env.vars["arg_"+p.Name()] = args[i]
@@ -150,13 +155,37 @@ func (fr *Frame) callStatic(callee *ssa.Function, bindings []Val, args []Val, st
 	if fc == nil && len(callee.Blocks) > 0 && fr.depth < 5 && (len(findLoops(callee)) == 0 || callee.Parent() != nil) && !vc.prog.isRecursive(callee) && countInstrs(callee) < 400 {
 		inline = true
 	}
-	if fc != nil && !inline {
-		return fr.applyContract(fmt.Sprintf("%s@%d", short, k), callee.Signature, callee, fc, cf, args, st, reach, false)
+	var res Val
+	switch {
+	case fc != nil && !inline:
+		res = fr.applyContract(fmt.Sprintf("%s@%d", short, k), callee.Signature, callee, fc, cf, args, st, reach, false)
+	case inline:
+		res = fr.inlineCall(callee, fc, cf, bindings, args, st, reach, fmt.Sprintf("%s@%d.", short, k))
+	default:
+		res = fr.havocCall(name, callee.Signature, st)
 	}
-	if inline {
-		return fr.inlineCall(callee, fc, cf, bindings, args, st, reach, fmt.Sprintf("%s@%d.", short, k))
+	if fr.fc != nil {
+		for _, ca := range fr.fc.CallAssume {
+			if ca.Callee == short && ca.K == k {
+				pos := token.NoPos
+				if fr.curInstr != nil {
+					pos = fr.curInstr.Pos()
+				}
+				env := fr.specEnvAt(st, fmt.Sprintf("assume@after %s#%d", short, k), pos)
+				if res != nil {
+					env.vars["result"] = res
+					if tv, ok := res.(*TV); ok {
+						for i, e := range tv.E {
+							env.vars[fmt.Sprintf("result%d", i)] = e
+						}
+						env.vars["result"] = tv.E[0]
+					}
+				}
+				vc.sc.Assume(mkImplies(reach, env.Bool(ca.C.Expr)), fmt.Sprintf("assumed after %s#%d: %s", short, k, ca.C.Src))
+			}
+		}
 	}
-	return fr.havocCall(name, callee.Signature, st)
+	return res
 }
 
 func countInstrs(fn *ssa.Function) int {
@@ -186,7 +215,7 @@ func (fr *Frame) inlineCall(callee *ssa.Function, fc *FuncContract, cf *Contract
 		env := sub.specEnv(st, "requires of "+callee.Name())
 		sub.bindParams(env)
 		for j, c := range fc.Requires {
-			fr.obligeNamed(fmt.Sprintf("%spre.%d", prefix, j+1), "call-pre", reach, env.Bool(c.Expr), c.Src, c.Line)
+			fr.obligeParts(fmt.Sprintf("%spre.%d", prefix, j+1), "call-pre", reach, env, c)
 		}
 	}
 	rets := sub.run(st.clone(), reach)
@@ -252,7 +281,7 @@ func (fr *Frame) havocAll(st *State) {
 		if strings.HasPrefix(k, "G|") && vc.prog.immutableGlobal(strings.Split(k, "|")[1]) {
 			continue
 		}
-		st.Heap[k] = vc.sc.Decl(k, vc.entrySorts[k])
+		st.Heap[k] = vc.declHeap(k, vc.entrySorts[k])
 	}
 	na := vc.sc.Decl("alloc", SInt)
 	vc.sc.Assume(app(SBool, ">=", na, st.Alloc), "allocation counter only grows")
@@ -328,7 +357,7 @@ func (fr *Frame) applyContract(site string, sig *types.Signature, callee *ssa.Fu
 	env.old = pre
 	env.allocOld = pre.Alloc
 	for j, c := range fc.Requires {
-		fr.obligeNamed(fmt.Sprintf("call.%s.pre.%d", site, j+1), "call-pre", reach, env.Bool(c.Expr), c.Src, c.Line)
+		fr.obligeParts(fmt.Sprintf("call.%s.pre.%d", site, j+1), "call-pre", reach, env, c)
 	}
 	// havoc the frame
 	if fc.ModAll {
@@ -378,14 +407,18 @@ func (fr *Frame) applyContract(site string, sig *types.Signature, callee *ssa.Fu
 
 func paramNames(sig *types.Signature, callee *ssa.Function, iface bool) []string {
 	var names []string
-	if callee != nil {
+	if callee != nil && len(callee.Blocks) > 0 {
 		for _, p := range callee.Params {
 			names = append(names, p.Name())
 		}
 		return names
 	}
 	if iface || sig.Recv() != nil {
-		names = append(names, "recv")
+		if sig.Recv() != nil && sig.Recv().Name() != "" && sig.Recv().Name() != "_" && !iface {
+			names = append(names, sig.Recv().Name())
+		} else {
+			names = append(names, "recv")
+		}
 	}
 	for i := 0; i < sig.Params().Len(); i++ {
 		names = append(names, sig.Params().At(i).Name())
@@ -412,7 +445,7 @@ func (fr *Frame) havocLvalue(env *SpecEnv, e ast.Expr, st *State) {
 					key := vc.memKey(m.Elem, l.Name)
 					s := SArr(SInt, SArr(enc.Idx(), l.Sort))
 					arr := vc.heapGet(st, key, s)
-					nv := vc.sc.Def(key, mkStore(arr, m.Base, vc.sc.Decl(key+"@", SArr(enc.Idx(), l.Sort))))
+					nv := vc.sc.Def(key, mkStore(arr, m.Base, vc.declHeap(key+"@", SArr(enc.Idx(), l.Sort))))
 					vc.prov[nv.S] = provInfo{kind: 0, parent: arr.S, ref: m.Base}
 					vc.heapSet(st, key, nv)
 				}
@@ -424,7 +457,7 @@ func (fr *Frame) havocLvalue(env *SpecEnv, e ast.Expr, st *State) {
 				key := "H|ghost|" + sf.Name + "|v"
 				s := SArr(SInt, enc.scalarSort(rt))
 				arr := vc.heapGet(st, key, s)
-				nv := vc.sc.Def(key, mkStore(arr, p.L[0], vc.sc.Decl(key+"@", enc.scalarSort(rt))))
+				nv := vc.sc.Def(key, mkStore(arr, p.L[0], vc.declHeap(key+"@", enc.scalarSort(rt))))
 				vc.prov[nv.S] = provInfo{kind: 0, parent: arr.S, ref: p.L[0]}
 				vc.heapSet(st, key, nv)
 				return
@@ -463,7 +496,7 @@ func (fr *Frame) havocLvalue(env *SpecEnv, e ast.Expr, st *State) {
 				for _, l := range enc.Leaves(obj.Type()) {
 					key := "G|" + env.pkg.Name() + "." + x.Name + "|" + l.Name
 					vc.heapGet(st, key, l.Sort)
-					vc.heapSet(st, key, vc.sc.Decl(key, l.Sort))
+					vc.heapSet(st, key, vc.declHeap(key, l.Sort))
 				}
 				return
 			}
@@ -484,7 +517,7 @@ func (fr *Frame) havocField(st *State, stT types.Type, i int, ref Term) {
 	for _, l := range enc.Leaves(ft) {
 		key := vc.fieldKey(stT, i, l.Name)
 		arr := vc.heapGet(st, key, SArr(SInt, l.Sort))
-		nv := vc.sc.Def(key, mkStore(arr, ref, vc.sc.Decl(key+"@", l.Sort)))
+		nv := vc.sc.Def(key, mkStore(arr, ref, vc.declHeap(key+"@", l.Sort)))
 		vc.prov[nv.S] = provInfo{kind: 0, parent: arr.S, ref: ref}
 		vc.heapSet(st, key, nv)
 	}
@@ -508,7 +541,7 @@ func (fr *Frame) havocObj(st *State, t types.Type, ref Term) {
 		for _, l := range enc.Leaves(u.Elem()) {
 			key := vc.memKey(u.Elem(), l.Name)
 			arr := vc.heapGet(st, key, SArr(SInt, SArr(enc.Idx(), l.Sort)))
-			nv := vc.sc.Def(key, mkStore(arr, ref, vc.sc.Decl(key+"@", SArr(enc.Idx(), l.Sort))))
+			nv := vc.sc.Def(key, mkStore(arr, ref, vc.declHeap(key+"@", SArr(enc.Idx(), l.Sort))))
 			vc.prov[nv.S] = provInfo{kind: 0, parent: arr.S, ref: ref}
 			vc.heapSet(st, key, nv)
 		}
@@ -516,7 +549,7 @@ func (fr *Frame) havocObj(st *State, t types.Type, ref Term) {
 		for _, l := range enc.Leaves(t) {
 			key := vc.cellKey(t, l.Name)
 			arr := vc.heapGet(st, key, SArr(SInt, l.Sort))
-			nv := vc.sc.Def(key, mkStore(arr, ref, vc.sc.Decl(key+"@", l.Sort)))
+			nv := vc.sc.Def(key, mkStore(arr, ref, vc.declHeap(key+"@", l.Sort)))
 			vc.prov[nv.S] = provInfo{kind: 0, parent: arr.S, ref: ref}
 			vc.heapSet(st, key, nv)
 		}
